@@ -61,6 +61,7 @@ def assigned_names(body):
             elif isinstance(n, ast.Attribute) and isinstance(n.ctx, ast.Store):
                 attrs.append(n)
             elif isinstance(n, ast.Subscript) and isinstance(n.ctx, ast.Store):
+                n.value._pyvc_store_only = True
                 recvs.append(n.value)
             elif isinstance(n, ast.Call) and isinstance(n.func, ast.Attribute):
                 recvs.append(n.func.value)
@@ -722,7 +723,9 @@ class Exec(Interp):
                 raise Infeasible()
             conc_vals[nm] = vals[self.choose(len(vals), "loop-concrete")]
         for nm in sorted(names):
-            if nm in conc_vals:
+            if nm in spec.havoc_as:
+                env[nm] = spec.havoc_as[nm](self)
+            elif nm in conc_vals:
                 env[nm] = conc_vals[nm]
             elif nm in env:
                 try:
@@ -755,6 +758,15 @@ class Exec(Interp):
                 finally:
                     self.spec_depth -= 1
             except (OutsideSubset, RaiseSig):
+                continue
+            if isinstance(o, SymList) and id(o) not in seen:
+                # a symbolic list mutated inside the loop (item store / method call): its content - and for method
+                # calls its length - are unknown at the loop head; mutated in place so that aliases see it
+                seen.add(id(o))
+                o.arr = z3.Const(self.fresh_name("lst"), o.arr.sort())
+                if not getattr(r, "_pyvc_store_only", False):
+                    o.n = z3.Int(self.fresh_name("lst_n"))
+                    self.assume(o.n >= 0)
                 continue
             if isinstance(o, Abstract) and id(o) not in seen:
                 seen.add(id(o))
